@@ -38,6 +38,9 @@ class Pool:
             "besselI1": ufl.bessel_I(1, u), "besselK0": ufl.bessel_K(0, u), "besselK1": ufl.bessel_K(1, u),
             "cond": conditional(lt(u, h), u * u, h), "cond2": conditional(lt(u * h, 1), sin(u), u * h),
             "max": max_value(u, h), "min": min_value(u * u, h), "max2": max_value(u * h, 1),
+            # operands / branches whose derivative is identically zero, on either side (round 4)
+            "max_c1": max_value(0.7, u * h), "max_c1c": max_value(c, u), "min_c1": min_value(1, u * h), "min_c2": min_value(u, c),
+            "cond_ct": conditional(lt(c, u), 1, u * u), "cond_cf": conditional(lt(u, h), u * h, 2),
             "powg": u**h, "pow_x": (u * u + 1)**(h * u), "pow_const_base": 2**u,
             "x0u": x[0] * u, "xpoly": x[0]**2 * x[min(1, self.g - 1)] + x[min(1, self.g - 1)], "xdot": dot(x, x) * u,
             "dot": dot(w, z), "ww": w[i] * w[i], "tr": tr(A), "innerAA": inner(A, A), "det": det(A),
